@@ -63,7 +63,7 @@ def state_table(cls):
         pattern = value if isinstance(value, str) else getattr(value, "pattern")
         rules.append({"name": name, "rule": tokname, "pattern": pattern, "ignored": name in cls._ignored_tokens,
                       "has_func": name in cls._token_funcs, "tree": ser(sre_parse.parse(pattern, cls.reflags))})
-    return {"class": cls.__qualname__, "rules": rules, "master": cls._master_re.pattern, "reflags": int(cls.reflags),
+    return {"class": cls.__qualname__, "rules": rules, "master": cls._master_re.pattern, "master_flags": int(cls._master_re.flags), "reflags": int(cls.reflags),
             "ignore": cls.ignore, "literals": sorted(cls.literals), "remapping": {k: dict(v) for k, v in cls._remapping.items()},
             "tokens": sorted(cls.tokens), "error_is_default": cls.error is __import__("pyab_experiment.sly.lex", fromlist=["Lexer"]).Lexer.error}
 
@@ -271,10 +271,42 @@ def parser_tables(req):
         f = p.func
         prods.append({"number": p.number, "name": p.name, "rhs": list(p.prod), "prec": list(p.prec), "names": list(p.namemap.keys()),
                       "func": getattr(f, "__qualname__", None), "lineno": f.__code__.co_firstlineno if f is not None else None})
+    # probe of the accessors the grammar actions use (p.NAME / p.NAMEk / p[i] / len(p)) on the LIVE production objects, through
+    # the real YaccProduction wrapper: a slice of distinct sentinel symbols must come back at the documented positions
+    from pyab_experiment.sly.yacc import YaccProduction, YaccSymbol
+    probes = []
+    for p in g.Productions[1:]:
+        syms = []
+        for i, x in enumerate(p.prod):
+            sy = YaccSymbol()
+            sy.type, sy.value = x, "sentinel-%d" % i
+            syms.append(sy)
+        ps = YaccProduction(list(syms), [])
+        ps._namemap = p.namemap
+        got = {}
+        for k in p.namemap:
+            try:
+                got[k] = getattr(ps, k)
+            except Exception as e:   # noqa
+                got[k] = "raised %s" % type(e).__name__
+        idx = []
+        for i in range(len(p.prod)):
+            try:
+                idx.append(ps[i])
+            except Exception as e:   # noqa
+                idx.append("raised %s" % type(e).__name__)
+        try:
+            unknown = getattr(ps, "NO_SUCH_SYMBOL_")
+            unknown = "returned %r" % (unknown,)
+        except AttributeError:
+            unknown = "AttributeError"
+        except Exception as e:   # noqa
+            unknown = "raised %s" % type(e).__name__
+        probes.append({"number": p.number, "len_attr": p.len, "len_fn": len(ps), "by_name": got, "by_index": idx, "unknown_name": unknown})
     lr = P._lrtable
     lr_tables = {"action": {str(k): dict(v) for k, v in lr.lr_action.items()}, "goto": {str(k): dict(v) for k, v in lr.lr_goto.items()},
                  "defaulted": {str(k): v for k, v in lr.defaulted_states.items()}}
-    return {"lr": lr_tables, "productions": prods, "precedence": {k: list(v) for k, v in g.Precedence.items()}, "start": g.Start,
+    return {"lr": lr_tables, "accessor_probes": probes, "productions": prods, "precedence": {k: list(v) for k, v in g.Precedence.items()}, "start": g.Start,
             "sr_conflicts": [list(map(str, c)) for c in lr.sr_conflicts], "rr_conflicts": [list(map(str, c)) for c in lr.rr_conflicts],
             "tokens": sorted(P.tokens), "terminals": sorted(t for t in g.Terminals if t not in ("error",)),
             "error_is_sly_default": P.error is Parser.error, "error_owner": P.error.__qualname__,
